@@ -752,7 +752,12 @@ def r9_memory_chiplet(ctx, F):
         f_rc = F.fn(r"^miden_processor::chiplets::memory::Memory::append_range_checks$")
         I.call(f_rc.id, [me, 1000, Ptr([Opaque("RangeChecker")], 0)])
         I.call(f_fill.id, [mem, Ptr([Opaque("TraceFragment")], 0)])
-    except (Unanalysable, PanicReached) as e:
+    except PanicReached as e:
+        # the scenario is an honest access sequence: a panic while its trace is built (e.g. the debug assertion of
+        # split_u32_into_u16 on a delta that is not a 32-bit value) means the deltas are taken from the wrong columns
+        ctx.violation("memory-trace-panic", f_fill.loc(), "building the memory trace of an honest access sequence (two contexts, several addresses and clock gaps) reaches a panic: %s - "
+                      "a context / address / clock delta is not the documented non-negative 32-bit difference" % str(e)[:200])
+    except Unanalysable as e:
         ctx.violation("UNANALYSABLE|memory-chiplet", f_fill.loc(), str(e)[:300])
         return
     n = holder["n"]
@@ -898,12 +903,12 @@ def r10_hasher_chiplet(ctx, F):
 
     scenario("permute", lambda I, me, fn: I.call(fn("permute").id, [me, Agg([Poly.var("x%d" % i) for i in range(12)], "array")]))
     scenario("hash_control_block", lambda I, me, fn: I.call(fn("hash_control_block").id, [me, word("h1_"), word("h2_"), Poly.var("domain"), digest("exp")]))
-    for nb in (1, 2, 3, 4):
+    for nb in ((1, 2, 3, 4) if ctx.tier != "thorough" else (1, 2, 3, 4, 5, 6, 8)):
         def span(I, me, fn, nb=nb):
             batches = [Agg([Agg([], "vec"), Agg([Poly.var("g%d_%d" % (b, i)) for i in range(8)], "array"), Agg([0] * 8, "array"), 8], "adt", badt["id"], badt["variants"][0]["name"]) for b in range(nb)]
             return I.call(fn("hash_span_block").id, [me, SlicePtr(batches, 0, nb), digest("exp")])
         scenario("hash_span_block|%d-batches" % nb, span)
-    for depth, index in ((1, 1), (2, 2), (3, 5)):
+    for depth, index in (((1, 1), (2, 2), (3, 5)) if ctx.tier != "thorough" else ((1, 0), (1, 1), (2, 0), (2, 1), (2, 2), (2, 3), (3, 5), (4, 9), (5, 22), (6, 33))):
         path = lambda: Agg([digest("sib%d_" % k) for k in range(depth)], "vec")
         scenario("build_merkle_root|depth-%d" % depth, lambda I, me, fn, depth=depth, index=index: I.call(fn("build_merkle_root").id, [me, word("leaf"), Ptr([Agg([digest("sib%d_" % k) for k in range(depth)], "vec")], 0), Poly.const(index)]))
         scenario("update_merkle_root|depth-%d" % depth, lambda I, me, fn, depth=depth, index=index: I.call(fn("update_merkle_root").id, [me, word("old"), word("new"), Ptr([Agg([digest("sib%d_" % k) for k in range(depth)], "vec")], 0), Poly.const(index)]))
